@@ -846,8 +846,10 @@ def campaign(run, log=lib.log):
     summary['times']['queries'] = round(time.time() - t0, 1)
     summary['nontrivial'] = len(summary['nontrivial'])
     os.makedirs(lib.WORK, exist_ok=True)
-    with open(path, 'w') as f:
+    tmp = '%s.%d.tmp' % (path, os.getpid())       # atomic: another check may read the cache while it is written
+    with open(tmp, 'w') as f:
         json.dump(summary, f)
+    os.replace(tmp, path)
     summary['cached'] = False
     return summary
 
